@@ -28,6 +28,9 @@ META = {
 MODULES = sorted(refs.REFS)
 
 
+THREAD_REPLICA = False   # cold-start races of these modules resolve during corpus harvesting; C13's trials own them
+
+
 def shards(tier):
     out = [{'name': m, 'kind': 'mod', 'module': m} for m in MODULES]
     k = 4 if tier == 'quick' else 16
